@@ -887,6 +887,94 @@ def tokDtype (kw : Kw) (t : Tok) : Except Err DT :=
   | .error e => .error e
   | .ok l => mkDtype t.name l
 
+/-! ## SPEC-side notions used by the theorems -/
+
+/-- SPEC: the per-token encodings, in order (`packT` is their concatenation). -/
+def packParts (kw : Kw) : List Tok → List Val → Except Err (List Bits)
+  | [], [] => .ok []
+  | [], _ :: _ => .error .value
+  | t :: ts, vs =>
+    if t.needsValue kw then
+      match resolveLen kw t.len with
+      | .error e => .error e
+      | .ok _ =>
+        match vs with
+        | [] => .error .value
+        | v :: vs' =>
+          match tokBits kw t (some v) with
+          | .error e => .error e
+          | .ok b => (packParts kw ts vs').map (b :: ·)
+    else
+      match tokBits kw t none with
+      | .error e => .error e
+      | .ok b => (packParts kw ts vs).map (b :: ·)
+
+/-- the token is the name of a keyword argument standing for a whole bitstring (methods.py:66-68). -/
+def Tok.isDict (kw : Kw) (t : Tok) : Bool := kw.has t.name && t.len.isNone && t.val.isNone
+
+/-- the number of bits a token *declares* (`name:len`, units × bits per unit); `none` for length-less,
+    self-delimiting, literal and dictionary tokens. -/
+def declLen (kw : Kw) (t : Tok) : Option Int :=
+  if t.isDict kw ∨ literalNames.contains t.name then none else
+  match resolveLen kw t.len, kindOfName (String.ofList t.name) with
+  | .ok (some l), .ok k => some (l * k.mult)
+  | _, _ => none
+
+/-- a token that `unpack` can name as well: no embedded value, not a dictionary entry, not a literal. -/
+def Tok.plain (kw : Kw) (t : Tok) : Bool := t.val.isNone && !kw.has t.name && !literalNames.contains t.name
+
+/-- the dtype list `unpack` works with, for a parsed token list. -/
+def tokDtypes (kw : Kw) : List Tok → Except Err (List DT)
+  | [] => .ok []
+  | t :: ts =>
+    match tokDtype kw t with
+    | .error e => .error e
+    | .ok d => (tokDtypes kw ts).map (d :: ·)
+
+def isLowerHex (c : Char) : Bool := (hexVal? c).isSome
+def isBinDigit (c : Char) : Bool := c = '0' || c = '1'
+def isOctDigit (c : Char) : Bool := '0'.toNat ≤ c.toNat && c.toNat ≤ '7'.toNat
+
+/-- the value is of the Python type `unpack` returns for the kind, in canonical spelling
+    (ints as `int`, hex/bin/oct strings as bare lower-case digits, whole bytes). -/
+def canonical (k : Kind) (v : Val) : Bool :=
+  match k, v with
+  | .uint, .int _ | .int, .int _ | .uintbe, .int _ | .intbe, .int _ | .uintle, .int _ | .intle, .int _ => true
+  | .ue, .int _ | .se, .int _ | .uie, .int _ | .sie, .int _ => true
+  | .hex, .str s => s.all isLowerHex
+  | .bin, .str s => s.all isBinDigit
+  | .oct, .str s => s.all isOctDigit
+  | .bits, .bits _ => true
+  | .bytes, .bytes b => b.length % 8 = 0
+  | .bool, .bool _ => true
+  | _, _ => false
+
+/-- `vs` are canonical values for the value-taking tokens of `ts`, one each, in order (`pad` takes none). -/
+def conform (kw : Kw) : List Tok → List Val → Bool
+  | [], vs => vs.isEmpty
+  | t :: ts, vs =>
+    if t.name = "pad".toList then conform kw ts vs
+    else match vs with
+      | [] => false
+      | v :: vs' =>
+        (match tokDtype kw t with
+         | .ok d => canonical d.kind v
+         | .error _ => false) && conform kw ts vs'
+
+/-- abstract syntax of formats above the token level. -/
+inductive Fmt where
+  | tok (t : Tok)
+  | rep (n : Nat) (f : Fmt)
+  | seq (f g : Fmt)
+  | empty
+
+/-- SPEC: `n*(f)` is `f` written `n` times, `f, g` is `f` followed by `g`. -/
+def Fmt.flatten : Fmt → List Tok
+  | .tok t => [t]
+  | .rep n f => (List.replicate n f.flatten).flatten
+  | .seq f g => f.flatten ++ g.flatten
+  | .empty => []
+
 /-! ## line protocol -/
 
 def hexDigitVal? (c : Char) : Option Nat := hexVal? c.toLower
